@@ -392,7 +392,12 @@ type IntersectsFeature struct {
 }
 
 func (i IntersectsFeature) Matches(f Feature, w World) bool {
-	return i.ID == f.FeatureID() || i.toGeometryQuery(w).Matches(f, w)
+	q := i.toGeometryQuery(w)
+	if _, ok := q.(Empty); ok {
+		// Nothing intersects a feature without geometry, consistent with Compile
+		return false
+	}
+	return i.ID == f.FeatureID() || q.Matches(f, w)
 }
 
 func (i IntersectsFeature) Compile(index FeatureIndex, w World) search.Iterator {
